@@ -80,22 +80,23 @@ type Conn struct {
 	acceptStep       int
 
 	// knobs
-	Latency      func() time.Duration // per write; nil = 0
-	CutReads     bool                 // let the tape cut what a Read returns
-	SerialMode   bool                 // serial port semantics: own timeout, min read cost
-	PortTimeout  time.Duration
-	TOStyle      TimeoutStyle
-	MinReadCost  time.Duration
-	WriteErr     error // next Write fails with this error ...
-	WriteErrN    int   // ... after accepting this many bytes
-	OnWrite      func(c *Conn, data []byte)
-	OnWriteBegin func(c *Conn)        // called when Write is entered, before it is scheduled
-	OnReadBegin  func(c *Conn)        // called when Read is entered
-	OnReadEnd    func(c *Conn)        // called when Read returns
-	WriteDelay   func() time.Duration // simulated time a Write takes (slow or back-pressured peer); nil = none
-	OnClose      func(c *Conn)
-	NoYieldWrite bool
-	EOFWithData  bool // the read that drains the last queued byte before EOF also reports io.EOF
+	Latency         func() time.Duration // per write; nil = 0
+	CutReads        bool                 // let the tape cut what a Read returns
+	SerialMode      bool                 // serial port semantics: own timeout, min read cost
+	PortTimeout     time.Duration
+	TOStyle         TimeoutStyle
+	MinReadCost     time.Duration
+	WriteErr        error // next Write fails with this error ...
+	WriteErrN       int   // ... after accepting this many bytes
+	OnWrite         func(c *Conn, data []byte)
+	OnWriteBegin    func(c *Conn)        // called when Write is entered, before it is scheduled
+	OnReadBegin     func(c *Conn)        // called when Read is entered
+	OnReadEnd       func(c *Conn)        // called when Read returns
+	WriteDelay      func() time.Duration // simulated time a Write takes (slow or back-pressured peer); nil = none
+	OnClose         func(c *Conn)
+	NoYieldWrite    bool
+	EOFWithData     bool // the read that drains the last queued byte before EOF also reports io.EOF
+	TimeoutWithData bool // some reads that return data also report os.ErrDeadlineExceeded
 
 	Rec      []IORec
 	RecLimit int
@@ -364,6 +365,9 @@ func (c *Conn) Read(p []byte) (int, error) {
 	st.consumed += got
 	if err == nil && len(st.segs) == 0 && st.eof && c.EOFWithData {
 		err = io.EOF
+	}
+	if err == nil && c.TimeoutWithData && !c.rdl.IsZero() && c.pick(3, 1) == 1 {
+		err = os.ErrDeadlineExceeded // the deadline struck while data was being handed over: n > 0 with an error is legal for io.Reader
 	}
 	c.record(IORec{Kind: "read", N: got, Err: err, Data: append([]byte(nil), p[:got]...)})
 	s.logLocked("read %s n=%d err=%v %x", c.Name, got, err, p[:got])
